@@ -322,7 +322,7 @@ def rule_bump_allocators(ck, facts, R):
             )
 
 
-def run(ck, facts, cg, anchors, tier, pid):
+def run(ck, facts, cg, anchors, tier, pid, literal=True):
     R = "%s.bounds" % pid
     ck.rule(
         R,
@@ -333,6 +333,7 @@ def run(ck, facts, cg, anchors, tier, pid):
     )
     n = rule_casts(ck, facts, R, "::compiler::bytecodegen", "bytecodegen")
     ck.floor(R, "bytecodegen_narrowing_casts_found", n, 20)
-    rule_literal_fidelity(ck, facts, R)
+    if literal:
+        rule_literal_fidelity(ck, facts, R)
     rule_checked_unwrap(ck, facts, R, "::compiler::bytecodegen")
     rule_bump_allocators(ck, facts, R)
